@@ -247,7 +247,9 @@ def make_file(rnd, layout, idx):
         if "sund" in cols and rnd.random() < 0.2:
             j = rnd.randrange(0, len(body)); t = body[j].split(sep)
             if len(t) > cols.index("sund"):
-                t[cols.index("sund")] = rnd.choice(["25", "-1", none]); body[j] = sep.join(t); c["sun_range"] = True
+                v = rnd.choice(["25", "-1", none])
+                t[cols.index("sund")] = v; body[j] = sep.join(t); ser[j][1]["sund"] = v
+                c["sun_range"] = v != none          # the sentinel (whatever its sign) is a missing value, not a range error
     else:
         cols = ["date", "tmin", "tmax", "rad", "prec", "wind", "rh"]
         if rnd.random() < 0.3:
@@ -295,7 +297,41 @@ def make_file(rnd, layout, idx):
 def gen_files(ctx):
     rnd = random.Random(ctx.seed * 6151 + 17)
     n = 900 if ctx.thorough else 72
-    return [make_file(rnd, (k % 3), k) for k in range(n)]
+    files = [make_file(rnd, (k % 3), k) for k in range(n)]
+    # multi-year files with a sunshine (and saturation deficit) column holding the sentinel on the first, the last and an isolated
+    # record, for a positive (> 24 h) and a negative sentinel: a missing value, never a range error
+    for layout in (1, 2):
+        for none in ("999.9", "-99.9", "-99"):
+            files.append(sun_file(rnd, layout, len(files), none))
+    return files
+
+
+def sun_file(rnd, layout, idx, none):
+    year = rnd.choice([1979, 1980, 1999, 2011])
+    start = rnd.choice([D(year, 1, 1), D(year, 12, 31) - datetime.timedelta(days=rnd.randrange(3, 9))])
+    n = rnd.randrange(12, 30)
+    ser = base_series(rnd, start, n, none)
+    for d, r in ser:
+        if r["sund"] == none:
+            r["sund"] = _num(rnd, 0, 14)
+    mid = rnd.randrange(3, n - 3)
+    for j in (0, mid, n - 1):
+        ser[j][1]["sund"] = none
+    if layout == 1:
+        cols = ["date", "tmin", "tavg", "tmax", "prec", "rad", "wind", "rh", "sund"] + (["verd"] if rnd.random() < 0.5 else [])
+        rest = cols[1:]; rnd.shuffle(rest); cols = ["date"] + rest
+        names = [CSV_NAMES[x] for x in cols]
+        lines = [",".join(names), ",".join(["-"] * len(names))]
+        body = [",".join(d.isoformat() if x == "date" else r[x] for x in cols) for d, r in ser]
+        nh = 2
+    else:
+        cols = ["date", "tmin", "tmax", "rad", "prec", "wind", "rh", "sund"]
+        rest = cols[1:]; rnd.shuffle(rest); cols = ["date"] + rest
+        lines = ["   ".join(CZ_NAMES[x] for x in cols)]
+        body = [" " + "  ".join(("%04d%03d" % (d.year, doy(d))) if x == "date" else r[x] for x in cols) for d, r in ser]
+        nh = 1
+    return {"idx": idx, "layout": layout, "none": none, "mut": None, "missing": False, "nh": nh, "year": year, "nslots": 2,
+            "text": "\n".join(lines + body) + "\n", "series": ser, "cols": cols}
 
 
 # ---------------------------------------------------------------------------------------------
